@@ -269,6 +269,11 @@ def _equality(w, e, s, l, r, positive, outs):
 
 def _ordering(w, e, s, l, r, op, outs):
     tl, tr = s.types(l), s.types(r)
+    # a module constant bound to a set / frozenset display
+    if tl is None and is_lit(_as_set_literal(w, l, s), "set"):
+        tl = frozenset(["frozenset"])
+    if tr is None and is_lit(_as_set_literal(w, r, s), "set"):
+        tr = frozenset(["frozenset"])
     numeric = tl is not None and tr is not None and tl <= NUM and tr <= NUM
     same = tl is not None and tr is not None and len(tl) == 1 and tl == tr and tl <= {"str", "bytes", "list", "tuple"}
     sets = tl is not None and tr is not None and tl <= {"set", "frozenset"} and tr <= {"set", "frozenset"}
@@ -288,6 +293,11 @@ def _ordering(w, e, s, l, r, op, outs):
             x.add(("type", r, NUM))
     neg = {"<": ">=", ">=": "<", ">": "<=", "<=": ">"}[op]
     a.add(("cmp", op, l, r))
+    if sets:
+        # inclusion is a partial order: "not (A <= B)" is not "A > B"
+        b.add(("notcmp", op, l, r))
+        _emit(outs, None if s.contradicts(("cmp", op, l, r)) else a, None if s.holds(("cmp", op, l, r)) else b, True)
+        return
     b.add(("cmp", neg, l, r))
     if is_const(l) and is_const(r):
         try:
